@@ -7,12 +7,12 @@ import os
 import re
 import tempfile
 
-from . import common
+from . import c17_batch, common
 from .common import coq_bool, coq_str
 
 PID = "C17"
 PROPS_FILE = "props/C17.v"
-MODEL_TARGETS = ["model/Nglob.vo", "model/GlobSem.vo", "model/NglobCheck.vo"]
+MODEL_TARGETS = ["model/Nglob.vo", "model/GlobSem.vo", "model/NglobCheck.vo", "model/NglobBatch.vo"]
 RULE = ("E1 strings: random patterns over the atoms {literal text incl. '/', '.', '-', '$', '{', ']', "
         "?, *, **, **/, [ab], [!a], [a-c], [^a], ${*n}, ${*m}, ${*n} repeated, ${*}} with random substitution "
         "dictionaries; RE_ANY_WILD.split, convert_nglob_to_regex (exact text or the ValueError kind), "
@@ -54,17 +54,36 @@ HEADER = ("From Coq Require Import List NArith Bool.\nImport ListNotations.\n"
 
 
 def generate(ctx):
-    from translator import gen_nglob
-    text, facts = gen_nglob.generate()
-    ctx.write_gen("GenNglob.v", text)
-    ctx.facts = facts
-    # statement-by-statement translation of the small functions (tied by proofs/NglobCodeTie.v)
-    from translator import gen_nglob_code
-    code_text, code_facts = gen_nglob_code.generate()
-    ctx.write_gen("GenNglobCode.v", code_text)
-    ctx.stats["translated_functions"] = code_facts["translated_functions"]
-    ctx.stats["fingerprinted_functions"] = len(facts["fingerprints"])
-    ctx.stats["wild_parts"] = len(facts["wild_parts"])
+    """Three translators; each writes what it can, the first error is raised at the end (so a change
+    that one of them rejects does not leave the gen files of the others stale)."""
+    errors = []
+
+    def constants():
+        from translator import gen_nglob
+        text, facts = gen_nglob.generate()
+        ctx.write_gen("GenNglob.v", text)
+        ctx.facts = facts
+        ctx.stats["fingerprinted_functions"] = len(facts["fingerprints"])
+        ctx.stats["wild_parts"] = len(facts["wild_parts"])
+
+    def code():
+        # statement-by-statement translation of the small functions (tied by proofs/NglobCodeTie.v)
+        from translator import gen_nglob_code
+        code_text, code_facts = gen_nglob_code.generate()
+        ctx.write_gen("GenNglobCode.v", code_text)
+        ctx.stats["translated_functions"] = code_facts["translated_functions"]
+
+    def batch():
+        # record_change / will_change / process_nglob_changes / rescan_nglobs (tied by proofs/NglobBatchTie.v)
+        c17_batch.generate_batch(ctx)
+
+    for step in (constants, code, batch):
+        try:
+            step()
+        except Exception as e:  # noqa: BLE001 - reported below
+            errors.append(e)
+    if errors:
+        raise errors[0]
 
 
 # ---------------------------------------------------------------------------------------------
@@ -253,6 +272,7 @@ def correspondence(ctx):
     e1_accept(ctx)
     e1_trees(ctx)
     e1_updates(ctx)
+    c17_batch.e1_batch(ctx)
 
 
 def _report(ctx, bad, descr, kind, limit=4):
@@ -811,6 +831,7 @@ def oracle(ctx):
     oracle_named_vs_star(ctx)
     oracle_repeated(ctx)
     oracle_update(ctx)
+    c17_batch.oracle_batch(ctx)
 
 
 WITNESSES = [
@@ -1080,6 +1101,7 @@ def search(ctx):
         oracle_named_vs_star(ctx)
         oracle_repeated(ctx)
         oracle_update(ctx)
+        c17_batch.oracle_batch(ctx)
     finally:
         ctx.tier = saved
 
@@ -1087,6 +1109,8 @@ def search(ctx):
 def replay(ctx, obj):
     w = obj["failure"].get("witness")
     print("replaying", w)
+    if c17_batch.replay_batch(ctx, w):
+        return
     if w and "tree" in w and "pattern" in w:
         cases = run_tree_cases(ctx, 0, 0, fixed=[(w["tree"], [(w["pattern"], w.get("subs", {}))])])
         oracle_on(ctx, cases)
